@@ -183,7 +183,7 @@ fn spec(ctx: &Ctx, shards: usize) -> SeqSpec {
         world: Default::default(),
         prefix: vec![],
         alphabet,
-        depth: if quick { 5 } else { 7 },
+        depth: if quick { 6 } else { 7 },
         allow: None,
         oracle: oracle(),
         keys: vec![1, 2],
